@@ -363,6 +363,10 @@ class Engine:
             # next to a generic real or complex one) ...
             fam = rng.choice(["unimodular", "unimodular_int", "float", "gaussian"])
         M = gen_matrix(rng, fam, n)
+        if g in h.gens and rng.random() < 0.15 and not h.has_complex():
+            # re-assign a generator to a matrix *close to* the one it has
+            M = h.gens[g] * (1.0 + 8e-6)
+            fam = "float"
         dtype = {"unimodular": "float64", "unimodular_int": "int64", "gaussian": "complex128",
                  "float": "float64", "sl2z": "float64"}[fam]
         if cfg.get("mixed_dtypes"):
@@ -436,7 +440,8 @@ class Engine:
         h = self._pick(rng, world, lambda x: x.gens)
         if h is None:
             return None
-        which = rng.choice(["getitem", "elements", "fox", "fox", "cocycle", "element_ps"])
+        which = rng.choice(["getitem", "elements", "fox", "fox", "cocycle", "element_ps", "getitem_list",
+                            "getitem_iter"])
         if which in ("fox", "cocycle") and not (h.simple and h.kind == "plain"):
             which = "elements"
         return {"op": "observe", "h": h.id, "which": which}
@@ -820,6 +825,10 @@ class Engine:
                 return self._unwrap(h.kind, X)[0]
             if accessor == "element_ps" and h.kind == "plain":
                 return np.asarray(h.real.element(w, parse_simple=True))
+            if accessor == "getitem_list":
+                return self._unwrap(h.kind, h.real[list(letters)])
+            if accessor == "getitem_iter":
+                return self._unwrap(h.kind, h.real[iter(list(letters))])
             return self._unwrap(h.kind, h.real[w])
         w = "*".join(letters)
         if accessor == "elements" or not letters:
